@@ -339,6 +339,77 @@ def main(tier, replay=None):
                     why.append(f"--{key}-style {style!r}: the {key} line is painted {sorted(got, key=str)[:2]}, the style denotes {want}")
             if why:
                 chk.violation({"property": PID, "shape": "hunk-style", "case": c, "why": "; ".join(why[:3])})
+    # ---- black box: the six removed / added line styles (base, emph, non-emph) on a file delta can highlight: every
+    #      region of a paired line is painted with its own option's style; a `syntax` foreground means the
+    #      highlighter's colour for that character (reference: the same text shown as a context line)
+    if not replay or (replay and json.load(open(replay)).get("shape") == "emph-style"):
+        r = vlib.case_rng(chk.seed, PID, "emph")
+        pool = ["syntax 53", "syntax bold 17", "normal 52", "bold red", "ul 12 #102030", "syntax", "italic blue 22", "syntax ul #203040"]
+        EOPTS = ["minus-style", "minus-emph-style", "minus-non-emph-style", "plus-style", "plus-emph-style", "plus-non-emph-style"]
+        ecases = [{"styles": {o: r.choice(pool) for o in EOPTS}, "tc": r.choice(["always", "never"])} for _ in range(40 if tier == "quick" else 800)]
+        ecases += [{"styles": dict({o: "normal 52" for o in EOPTS}, **{o1: "syntax 53"}), "tc": "always"} for o1 in EOPTS]
+        if replay:
+            ecases = [json.load(open(replay))["case"]]
+        OLD, NEW, GONE, CAME = "let alpha = 11;", "let alpha = 22;", "fn gone() {}", "static CAME: u8 = 3;"
+        ediff = ["diff --git a/f.rs b/f.rs", "index 1..2 100644", "--- a/f.rs", "+++ b/f.rs", "@@ -1,3 +1,3 @@", " // c", "-" + OLD, "+" + NEW,
+                 "@@ -10,2 +10,1 @@", " // d", "-" + GONE, "@@ -20,1 +20,2 @@", " // e", "+" + CAME]
+        eref = ["diff --git a/f.rs b/f.rs", "index 1..2 100644", "--- a/f.rs", "+++ b/f.rs", "@@ -1,5 +1,5 @@", " // c", " " + OLD, " " + NEW, " " + GONE, " " + CAME]
+
+        def run_e(tc, extra, lines):
+            return vlib.run_delta(["--no-gitconfig", "--paging", "never", "--true-color", tc, "--max-line-distance", "0.9"] + extra,
+                                  stdin=("\n".join(lines) + "\n").encode())
+        refs = {}
+        for tc in ("always", "never"):
+            rc, out, _ = run_e(tc, [], eref)
+            rws = term.decode(out)
+            refs[tc] = {}
+            for txt in (OLD, NEW, GONE, CAME):
+                hit = [row for row in rws if row.text().rstrip() == txt]
+                refs[tc][txt] = [cl[1] for cl in hit[0].cells[:len(txt)]] if len(hit) == 1 else None
+
+        def work_e(c):
+            extra = []
+            for o, v in c["styles"].items():
+                extra += ["--" + o, v]
+            return run_e(c["tc"], extra, ediff)
+        with ThreadPoolExecutor(max_workers=vlib.NCPU) as ex:
+            eres = list(ex.map(work_e, ecases))
+        for c, (rc, out, err) in zip(ecases, eres):
+            chk.case(("emph-style", json.dumps(c, sort_keys=True)), True, c)
+            chk.count("blackbox:emph-style")
+            if rc != 0:
+                chk.violation({"property": PID, "shape": "emph-style", "case": c, "why": f"exit status {rc}"})
+                continue
+            rows = term.decode(out)
+            why = []
+            # (line text, [(from, to, option)]) : which option styles which characters
+            plan = [(OLD, [(0, 12, "minus-non-emph-style"), (12, 14, "minus-emph-style"), (14, 15, "minus-non-emph-style")]),
+                    (NEW, [(0, 12, "plus-non-emph-style"), (12, 14, "plus-emph-style"), (14, 15, "plus-non-emph-style")]),
+                    (GONE, [(0, len(GONE), "minus-style")]), (CAME, [(0, len(CAME), "plus-style")])]
+            for txt, regions in plan:
+                hit = [row for row in rows if row.text().rstrip() == txt]
+                ref = refs[c["tc"]][txt]
+                if len(hit) != 1 or ref is None:
+                    why.append(f"line {txt!r} is shown {len(hit)} times")
+                    continue
+                for a, b, o in regions:
+                    style = c["styles"][o]
+                    d = drv.ask("style_parse", vlib.hexs(style), "1" if c["tc"] == "always" else "0")
+                    fields = dict(x.split("=") for x in d.split("\t")[1].split(";"))
+                    bg = term.DEFAULT if fields["bg"] == "-" else decode_color(fields["bg"])
+                    at = frozenset(x for x in fields["attrs"].split(",") if x)
+                    for j in range(a, b):
+                        cl = hit[0].cells[j]
+                        if txt[j] == " " and fields["syntax"] == "1":
+                            fg = cl[1]   # the highlighter's colour of a blank is not visible; not compared
+                        else:
+                            fg = ref[j] if fields["syntax"] == "1" else (term.DEFAULT if fields["fg"] == "-" else decode_color(fields["fg"]))
+                        if (cl[1], cl[2], frozenset(cl[3])) != (fg, bg, at):
+                            why.append(f"--{o} {style!r}: character {j} ({txt[j]!r}) of {txt!r} is painted fg {cl[1]} bg {cl[2]} attrs {sorted(cl[3])}, "
+                                       f"the style denotes fg {'the syntax colour ' if fields['syntax'] == '1' else ''}{fg} bg {bg} attrs {sorted(at)}")
+                            break
+            if why:
+                chk.violation({"property": PID, "shape": "emph-style", "case": c, "why": "; ".join(why[:3])})
     vm.close()
     drv.close()
     return chk.finish()
